@@ -249,9 +249,58 @@ pub fn check_threads(case: &ThreadCase) -> Report {
         std::thread::sleep(Duration::from_micros(case.seed % 300));
         q.close();
     }
-    let accepted: Vec<Vec<(u8, u32, u32)>> = producers.into_iter().map(|h| h.join().unwrap_or_default()).collect();
+    // join with a stuck check: a thread that stays blocked (e.g. after close) must not hang the checker.
+    // Verdict without trusting time alone: the under-lock log shows every unfinished thread's last
+    // event is a wait, and the OS shows that no thread of this process ran for 5 s.
+    fn join_all<T: Default>(hs: Vec<std::thread::JoinHandle<T>>, what: &str, closed: bool) -> Result<Vec<T>, Report> {
+        let start = std::time::Instant::now();
+        loop {
+            if hs.iter().all(|h| h.is_finished()) {
+                return Ok(hs.into_iter().map(|h| h.join().unwrap_or_default()).collect());
+            }
+            std::thread::sleep(Duration::from_millis(2));
+            if start.elapsed() > Duration::from_secs(8) {
+                let log = ragc_core::verif_hooks::snapshot_log();
+                let mut last: std::collections::BTreeMap<u64, &str> = Default::default();
+                for e in &log {
+                    last.insert(e.thread, e.kind);
+                }
+                let waiting: Vec<&str> = last.values().copied().filter(|k| *k == "push-wait" || *k == "pull-wait").collect();
+                if !waiting.is_empty() {
+                    if let Some(why) = crate::pipecheck::os_stuck_proof() {
+                        let n = hs.iter().filter(|h| !h.is_finished()).count();
+                        // the blocked threads are left behind (they cannot be cancelled); they hold only their own queue
+                        return Err(Report::fail(format!(
+                            "{} {} stay blocked{}: last events of the waiting threads {:?}; {}",
+                            n,
+                            what,
+                            if closed { " although the queue has been closed" } else { "" },
+                            waiting,
+                            why
+                        )));
+                    }
+                }
+                if start.elapsed() > Duration::from_secs(180) {
+                    return Err(Report::inconclusive(format!("{} did not finish within 180 s but no stuck state could be proved", what)));
+                }
+            }
+        }
+    }
+    let accepted: Vec<Vec<(u8, u32, u32)>> = match join_all(producers, "producer thread(s)", case.early_close) {
+        Ok(v) => v,
+        Err(r) => {
+            let _ = vh::take_log();
+            return r;
+        }
+    };
     q.close();
-    let pulled: Vec<Vec<(u8, u32, u32)>> = consumers.into_iter().map(|h| h.join().unwrap_or_default()).collect();
+    let pulled: Vec<Vec<(u8, u32, u32)>> = match join_all(consumers, "consumer thread(s)", true) {
+        Ok(v) => v,
+        Err(r) => {
+            let _ = vh::take_log();
+            return r;
+        }
+    };
     let log = vh::take_log();
     let mut a: Vec<_> = accepted.iter().flatten().copied().collect();
     let mut b: Vec<_> = pulled.iter().flatten().copied().collect();
@@ -458,7 +507,10 @@ pub fn run(ctx: &Ctx, stats: &mut Stats) {
     let n = ctx.tier.pick(1_000_000, 10_000_000);
     run_prop(ctx, stats, "sequential", n, seq_strategy(), &check_seq);
     let nt = ctx.tier.pick(960, 20_000);
-    run_prop(ctx, stats, "threads", nt, thread_strategy(), &check_threads);
+    // a stuck real-thread case costs ~13 s per evaluation (8 s grace + the 5 s OS-level proof): small shrink budget
+    let mut ct = ctx.clone();
+    ct.shrink_iters = 16;
+    run_prop(&ct, stats, "threads", nt, thread_strategy(), &check_threads);
     if !ctx.vshuttle.exists() {
         stats.inconclusive.push("vshuttle binary missing".into());
         return;
